@@ -223,3 +223,31 @@ Definition exec (o : op) (s : state) : state * result :=
 Fixpoint run_from (l : list op) (s : state) {struct l} : state :=
   match l with [] => s | o :: t => run_from t (fst (exec o s)) end.
 Definition run (l : list op) : state := run_from l init.
+
+(* ---- readings used in the theorem statements (not part of the machine) *)
+Fixpoint count (r : N) (l : list N) {struct l} : nat :=
+  match l with [] => O | x :: t => ((if N.eqb r x then 1 else 0) + count r t)%nat end.
+(* references to region r held by one handle / all live handles / all snapshots *)
+Definition href (r : N) (h : handle) : nat :=
+  match h with HRegion r' => if N.eqb r r' then 1%nat else O | HMap rs => count r rs | HSnap _ => O end.
+Fixpoint hrefs (r : N) (hs : list (option handle)) {struct hs} : nat :=
+  match hs with [] => O | Some h :: t => (href r h + hrefs r t)%nat | None :: t => hrefs r t end.
+Fixpoint srefs (r : N) (ss : list snap) {struct ss} : nat :=
+  match ss with [] => O | sn :: t => (count r (s_regions sn) + srefs r t)%nat end.
+(* number of owners of region r: every Arc<GuestRegionMmap> that exists *)
+Definition owners (r : N) (s : state) : nat := (hrefs r (handles s) + srefs r (snaps s))%nat.
+Fixpoint snap_handles (a : nat) (hs : list (option handle)) {struct hs} : nat :=
+  match hs with
+  | [] => O
+  | Some (HSnap a') :: t => ((if Nat.eqb a a' then 1 else 0) + snap_handles a t)%nat
+  | _ :: t => snap_handles a t end.
+(* the regions a client can reach through a handle *)
+Definition reach_list (s : state) (h : handle) : list N :=
+  match h with
+  | HRegion r => [r]
+  | HMap rs => rs
+  | HSnap a => match nth_error (snaps s) a with Some sn => s_regions sn | None => [] end
+  end.
+Definition reaches (s : state) (r : N) : Prop :=
+  exists i h, nth_error (handles s) i = Some (Some h) /\ In r (reach_list s h).
+Definition quiescent (s : state) : Prop := forall i h, nth_error (handles s) i <> Some (Some h).
